@@ -174,6 +174,9 @@ def _tn(rng):
 def _gen_parse(rng, cfg):
     src = rng.random()
     ext = corpus.extracted() if cfg["use_extracted"] else []
+    if rng.random() < 0.04:
+        d, s = STRUCT_QUERIES[rng.randrange(len(STRUCT_QUERIES))]
+        return {"k": "parse", "sql": s, "dialect": d}
     if rng.random() < cfg.get("p_grammar", 0.0):
         # seeded query grammar over the harness schema: joins of every kind, derived tables/CTEs that join, correlated subqueries, DNF filters
         # the grammar only uses portable SQL: sometimes the query is read (and later qualified / optimized) in a dialect with
@@ -481,6 +484,26 @@ def _schema():
     return _copy.deepcopy(corpus.SCHEMA)
 
 
+STRUCT_QUERIES = [("risingwave", "SELECT (s.st).* FROM s"), ("risingwave", "SELECT (st).*, id FROM s AS s"), ("bigquery", "SELECT s.st.* FROM s"),
+                  ("bigquery", "SELECT st.a_1, s.st.b_1 FROM s"), (None, "SELECT s.st.a_1 AS k FROM s WHERE s.id = 1"), ("duckdb", "SELECT UNNEST(arr) AS u, id FROM s"),
+                  ("bigquery", "SELECT x FROM s, UNNEST(s.arr) AS x"), ("postgres", "SELECT (s.st).a_1 FROM s"), ("risingwave", "SELECT (s.st).*, (s.st).b_1 FROM s JOIN x ON x.a = s.id")]
+
+
+def _schema_objs(st):
+    """The harness schema with DataType OBJECTS as column types (a documented form), plus a table with STRUCT / ARRAY columns. The
+    objects are the caller's: every one is fingerprinted, and the non-mutating call that received them is judged on them too."""
+    from sqlglot import exp
+
+    sch = {t: {c: exp.DataType.build(ty) for c, ty in cols.items()} for t, cols in corpus.SCHEMA.items()}
+    sch["s"] = {"id": exp.DataType.build("INT"), "st": exp.DataType.build("STRUCT<a_1 INT, b_1 TEXT>"), "arr": exp.DataType.build("ARRAY<INT>")}
+    extra = st.setdefault("_extra_args", [])
+    for t in sorted(sch):
+        for c in sorted(sch[t]):
+            dt = sch[t][c]
+            extra.append((dt, inv.fingerprint(dt), dt.sql(), "schema type %s.%s" % (t, c)))
+    return sch
+
+
 NEEDS_QUALIFIED = {"pushdown_projections", "unnest_subqueries", "pushdown_predicates", "optimize_joins", "eliminate_subqueries", "merge_subqueries",
                    "eliminate_joins", "eliminate_ctes"}
 
@@ -562,6 +585,19 @@ def _apply(world, op, st):
             world.origin[id(t)] = op["dialect"]
             res["new"].append((t, None, "parse"))
             res["cls"] = type(t).__name__
+            # the same statement parsed a second time: the two trees must not have a node in common (a node object kept at module
+            # or class level and put into every tree that needs it is "stored in two places" as soon as two such trees exist)
+            try:
+                t2 = sqlglot.parse_one(op["sql"], read=op["dialect"])
+                mine = {id(x): x for x in inv.walk(t)}
+                sh = [x for x in inv.walk(t2) if id(x) in mine]
+                if sh:
+                    x = sh[0]
+                    res["twin_shared"] = "%s node %r (stored under %s.%s) is the same object in two parses of the statement" % (
+                        type(x).__name__, x.sql()[:40], type(x.parent).__name__ if x.parent is not None else None, x.arg_key)
+                    res["twin_cls"] = "%s.%s" % (type(x.parent).__name__ if x.parent is not None else None, x.arg_key)
+            except Exception:
+                pass
         return res
 
     if not world.trees:
@@ -1172,7 +1208,8 @@ def _apply_nm(world, op, st, res, target):
             elif f == "optimize":
                 from sqlglot.optimizer import optimize
 
-                r = optimize(t, schema=_schema(), dialect=d if d in (None, "duckdb", "snowflake", "bigquery", "postgres", "spark", "mysql", "tsql") else None, **_db_args(op, n2, t2, res, st))
+                od = world.origin.get(id(t)) if op.get("m", 0) % 2 == 0 else (d if d in (None, "duckdb", "snowflake", "bigquery", "postgres", "spark", "mysql", "tsql") else None)
+                r = optimize(t, schema=_schema_objs(st) if op.get("m", 0) % 3 == 0 else _schema(), dialect=od, **_db_args(op, n2, t2, res, st))
             elif f == "plan":
                 # the planner and the executor take an Expression too and document no mutation; they are at the edge of the
                 # property's list ("optimizing it"), the tree is whatever the history made of it
@@ -1186,11 +1223,12 @@ def _apply_nm(world, op, st, res, target):
             elif f == "qualify_copy":
                 from sqlglot.optimizer.qualify import qualify
 
-                r = qualify(t.copy(), schema=_schema(), **_db_args(op, n2, t2, res, st))
+                r = qualify(t.copy(), schema=_schema_objs(st) if op.get("m", 0) % 3 == 0 else _schema(), dialect=world.origin.get(id(t)) if op.get("m", 0) % 2 == 0 else None,
+                            **_db_args(op, n2, t2, res, st))
             elif f == "annotate_copy":
                 from sqlglot.optimizer.annotate_types import annotate_types
 
-                r = annotate_types(t.copy(), schema=_schema())
+                r = annotate_types(t.copy(), schema=_schema_objs(st) if op.get("m", 0) % 3 == 0 else _schema(), dialect=world.origin.get(id(t)) if op.get("m", 0) % 2 == 0 else None)
             elif f == "diff":
                 from sqlglot.diff import diff
 
@@ -1435,6 +1473,12 @@ def execute(record, state=None):
                 v = fail("N1-arg-mutated", "%s(%s)" % (nmn(op), lab[0] if lab else "column=node"), step,
                          "%s changed the caller's %s: %r -> %r (%s)" % (nmn(op), "column node" if not lab else lab[0] + " object", sql0, col.sql(), inv.first_diff(fp0, inv.fingerprint(col))))
         st.pop("_lineage_col", None)
+        for obj_, fp0_, sql0_, lab_ in st.pop("_extra_args", []):
+            if v is not None:
+                break
+            if inv.fingerprint(obj_) != fp0_ or obj_.sql() != sql0_:
+                v = fail("N1-arg-mutated", "%s(%s)" % (nmn(op), lab_.split(" ")[0] + " object"), step,
+                         "%s changed the caller's %s: %r -> %r (%s)" % (nmn(op), lab_, sql0_, obj_.sql(), inv.first_diff(fp0_, inv.fingerprint(obj_))))
         for new, src, kind in res["new"]:
             if v is not None:
                 break
@@ -1501,6 +1545,8 @@ def execute(record, state=None):
         if le:
             e = le[0]
             v = fail(e[0], "%s@%s" % (_opname(op), e[2]), step, "after %s: %s" % (_opname(op), e[1]))
+        elif res.get("twin_shared"):
+            v = fail("I2-dup", "parse@twin:%s" % res["twin_cls"], step, "after parse: %s" % res["twin_shared"])
         if v is None:
             for t in world.trees:
                 he, _ = inv.check_hashes(t)
